@@ -453,3 +453,56 @@ Proof. unfold strict_ho. destruct (has_tie l); [discriminate|]. intros H; invers
 
 Lemma id_ho_sound l l' : id_ho l = Some l' -> forall e, In e l' -> In e l.
 Proof. unfold id_ho. intros H; inversion H; auto. Qed.
+
+(* ------------------------------------------------------------------ the executable checker *)
+Lemma remove1_perm x : forall l l', remove1 x l = Some l' -> Permutation l (x :: l').
+Proof.
+  induction l as [|y r IH]; intros l' H; cbn [remove1] in H; [discriminate|].
+  destruct (x =? y) eqn:E.
+  - apply Nat.eqb_eq in E. inversion H; subst. apply Permutation_refl.
+  - destruct (remove1 x r) as [r'|]; [|discriminate]. inversion H; subst.
+    eapply Permutation_trans; [apply perm_skip; apply IH; reflexivity | apply perm_swap].
+Qed.
+
+Lemma remove1_In x : forall l, In x l -> exists l', remove1 x l = Some l'.
+Proof.
+  induction l as [|y r IH]; intros H; [destruct H|]. cbn [remove1].
+  destruct (x =? y) eqn:E; [eexists; reflexivity|].
+  destruct H as [H | H]; [subst; rewrite Nat.eqb_refl in E; discriminate|].
+  destruct (IH H) as [r' ->]. eexists. reflexivity.
+Qed.
+
+Lemma permb_iff : forall a b, permb a b = true <-> Permutation a b.
+Proof.
+  induction a as [|x a IH]; intros b; cbn [permb].
+  - destruct b; split; intros H; try reflexivity; try discriminate.
+    + apply Permutation_nil in H. discriminate.
+  - destruct (remove1 x b) as [b'|] eqn:E.
+    + apply remove1_perm in E. rewrite IH. split.
+      * intros H. eapply Permutation_trans; [apply perm_skip; exact H | apply Permutation_sym; exact E].
+      * intros H. apply (Permutation_cons_inv (a := x)). eapply Permutation_trans; eauto.
+    + split; [discriminate|]. intros H.
+      assert (Hin : In x b) by (eapply Permutation_in; [exact H | left; reflexivity]).
+      destruct (remove1_In x b Hin) as [b' E']. congruence.
+Qed.
+
+Definition lkh_contract (cm : list (list Z)) (input output : list nat) : Prop :=
+  Permutation output input /\ hd_error output = hd_error input /\ (cycle_cost cm output <= cycle_cost cm input)%Z.
+
+Theorem check_lkh_iff cm input output : check_lkh cm input output = [] <-> lkh_contract cm input output.
+Proof.
+  unfold check_lkh, lkh_contract.
+  destruct (permb output input) eqn:E1.
+  2:{ split; [discriminate|]. intros [H _]. apply permb_iff in H. congruence. }
+  apply permb_iff in E1.
+  assert (E2 : (match input, output with [], [] => true | a :: _, b :: _ => a =? b | _, _ => false end) = true
+               <-> hd_error output = hd_error input).
+  { destruct input as [|a i], output as [|b o]; cbn [hd_error]; split; intros H; try reflexivity; try discriminate.
+    - apply Nat.eqb_eq in H. subst. reflexivity.
+    - inversion H. apply Nat.eqb_refl. }
+  destruct (match input, output with [], [] => true | a :: _, b :: _ => a =? b | _, _ => false end).
+  2:{ split; [discriminate|]. intros [_ [H _]]. apply E2 in H. discriminate. }
+  destruct (cycle_cost cm output <=? cycle_cost cm input)%Z eqn:E3; cbn [app].
+  - split; [|reflexivity]. intros _. split; [exact E1|]. split; [apply E2; reflexivity | apply Z.leb_le; exact E3].
+  - split; [discriminate|]. intros [_ [_ H]]. apply Z.leb_le in H. congruence.
+Qed.
